@@ -869,3 +869,32 @@ def c04(run):
     run.assumptions = ['the recipient holds one key per public-key algorithm and the message password; AES-128 session keys',
                        'EdDSA/ECDSA/RSA signature forgeries are not attempted: hostile signature packets are field-mutated genuine ones']
     run.notes['trusted_base'] = TRUSTED
+
+
+def resource_cfg(spec='MCSpec', invs='Bounded NeverBeyondInput TruncationReported', bad=False, maxd=12):
+    return (f"CONSTANTS\n  Cap = 4\n  Growth = 2\n  MaxDeclared = {maxd}\n  ReserveDeclared = {'TRUE' if bad else 'FALSE'}\n"
+            f"SPECIFICATION {spec}\nINVARIANTS {invs}\nCHECK_DEADLOCK FALSE\n")
+
+
+@prop('C19', 'exploration')
+def c19(run):
+    run.mc('MCResource', resource_cfg(maxd=run.q(16, 40)), name='mc', workers=2)
+    run.mc('MCResource', resource_cfg(bad=True), name='sens_reserve_declared', workers=2, expect_violation='Bounded')
+    g = run.mc('MCResource', resource_cfg(spec='GSpec', invs='Gen'), name='gen', workers=1, count=False)
+    cases = g.cases
+    for i, c in enumerate(cases):
+        c.setdefault('ci', i)
+    body, summary, oks = run.harness('c19', cases, timeout=3400)
+    run.distinct_nontrivial = summary['extra']['nontrivial']
+    run.traces_validated = summary['evaluations']
+    run.rule = ('Resource.tla models a length-prefixed read with DECLARED and SUPPLIED octets under the code\'s policy (reserve min(declared, Cap), grow as octets arrive) '
+                'and checks reserved <= Cap + Growth*consumed for every (declared, supplied); the forbidden policy (reserve the declared length) violates it. The spec lists '
+                'the 19 places a declared length lives, 8 repeated structures and 10 streams. The harness measures every call with a counting global allocator (per-thread '
+                'peak and total) and the wall clock: artefacts declaring 2^16..2^32-1 (or the field\'s maximum) over 0..200 supplied octets through PacketParser / Message / '
+                'key / signature parsers must stay under 192 KiB + 16 x input; N vs 2N repetitions (20k / 100k) must at most double total and peak allocation and time; '
+                'streams of 2 and 24 MiB (thorough 8 and 256 MiB) must be read and written with the same peak (+-256 KiB, <= 2 MiB; CheckFirst SEIPDv1 must refuse above its cap); '
+                'every Argon2 parameter set beyond t,p <= 32 (and m outside its range) must be refused without work; the dearmor limit must hold whatever the order of options.')
+    run.add_samples(cases[:3])
+    run.add_samples(oks[:2])
+    run.assumptions = ['allocation is measured on the calling thread (the crate spawns none); constants 192 KiB / 16x / 2 MiB are generous multiples of the observed figures']
+    run.notes['trusted_base'] = TRUSTED
